@@ -54,6 +54,8 @@ PROGS = [
     "if a:\n    if b:\n        c\n    d\nif e: f\nelif g:\n    if h: i\nq",
     # parameter lists of every size from zero to two
     "def z(): pass\ndef one(a): return a\ndef dflt(b=1): return b\ndef star(*c): pass\nl = lambda k: k\ndef two(d, e=2): pass",
+    # multi-byte text on the last line of the last statement of nested blocks (block ends are byte positions)
+    "def f(é):\n    if é:\n        ü = 'ñ' + é\n    else:\n        ö = [é, 'ß']\n    return f('çé')  # ä\nclass K:\n    x = 'é'; y = ü(x)",
 ]
 for _p in PROGS:
     ast.parse(_p)
